@@ -3,10 +3,11 @@
    (refinement, generic in the source-extracted parameters under roots_ok / pow_ok / addsub_ok).
    The initial guess is a PARAMETER of the model: every theorem holds for EVERY guess function
    that returns canonical values >= 1 ([guess_ok]); the f64-derived guesses of the std build
-   are not modelled.  Big multiplication / division: any exact ones ([bmul_exact],
-   [bdivrem_exact] = the statements of Mul.umul_spec / Div.udivrem_spec). *)
+   are not modelled.  Big multiplication / division: the REAL models, [pgr_bmul] = Mul.umul
+   Extracted.mul and [pgr_bdivrem] = Div.udivrem Extracted.div (proofs/PgrInst.v; exact by
+   MulProofs5.umul_spec (C02) / DivProofsApi.udivrem_spec (C03)): no exactness hypothesis is left. *)
 From BigNum Require Import Base BaseLemmas X86 AddSub ShiftCore PgrLoop PgrLoopProofs Pow PowProofs
-  Gcd SpecRoots RootsMath Roots RootsProofs Div PgrInst Extracted InstAddSub InstPgr.
+  Gcd SpecRoots RootsMath Roots RootsProofs Div Mul PgrInst Extracted InstAddSub InstPgr.
 Open Scope Z_scope.
 
 (* the executable spec [zroot] is THE floor root: r^n <= x < (r+1)^n, and that r is unique *)
@@ -45,30 +46,33 @@ Theorem C11_fixpoint : forall (F : Z -> Z) (f : list Z -> outcome (list Z)) (r m
 Proof. intros. eapply fixpoint_spec; eauto using roots_params_ok. Qed.
 Print Assumptions C11_fixpoint.
 
-Section Stmt.
-Variable bmul : list Z -> list Z -> outcome (list Z).
-Variable bdivrem : list Z -> list Z -> outcome (list Z * list Z).
-Hypothesis Hm : bmul_exact bmul.
-Hypothesis Hd : bdivrem_exact bdivrem.
-Let nth := unth_root bmul bdivrem addsub pgr_pow pgr_roots.
-Let sqrt_ := usqrt bdivrem addsub pgr_roots.
-Let cbrt_ := ucbrt bmul bdivrem addsub pgr_roots.
+(* what the theorems below are about: the real models at the extracted parameters *)
+Theorem C11_real_ops : pgr_bmul = Mul.umul Extracted.mul /\ pgr_bdivrem = Div.udivrem Extracted.div.
+Proof. split; reflexivity. Qed.
+Print Assumptions C11_real_ops.
+
+Local Notation Hm := pgr_bmul_exact.
+Local Notation Hd := pgr_bdivrem_exact.
+Local Notation nth_ := (unth_root pgr_bmul pgr_bdivrem addsub pgr_pow pgr_roots).
+Local Notation sqrt_ := (usqrt pgr_bdivrem addsub pgr_roots).
+Local Notation cbrt_ := (ucbrt pgr_bmul pgr_bdivrem addsub pgr_roots).
 
 (* sqrt, cbrt, nth_root (n : u32) return the floor root; n = 0 panics *)
 Theorem C11_roots : forall gf, guess_ok gf -> forall x, canon x ->
-  (forall n, 0 <= n < 2 ^ 32 -> nth gf x n = omap enc (spec_unth_root (val x) n)) /\
+  (forall n, 0 <= n < 2 ^ 32 -> nth_ gf x n = omap enc (spec_unth_root (val x) n)) /\
   sqrt_ gf x = Ret (enc (zroot 2 (val x))) /\
   cbrt_ gf x = Ret (enc (zroot 3 (val x))).
 Proof.
   intros gf Hg x Cx. split; [|split].
-  - intros n Hn. apply unth_root_spec; auto using addsub_params_ok, pow_params_ok, roots_params_ok.
-  - apply usqrt_spec; auto using addsub_params_ok, roots_params_ok.
-  - apply ucbrt_spec; auto using addsub_params_ok, roots_params_ok.
+  - intros n Hn. apply unth_root_spec; auto using Hm, Hd, addsub_params_ok, pow_params_ok, roots_params_ok.
+  - apply usqrt_spec; auto using Hd, addsub_params_ok, roots_params_ok.
+  - apply ucbrt_spec; auto using Hm, Hd, addsub_params_ok, roots_params_ok.
 Qed.
+Print Assumptions C11_roots.
 
 (* the std / no_std clause: the result does not depend on the initial guess *)
 Theorem C11_guess_independent : forall gf1 gf2, guess_ok gf1 -> guess_ok gf2 -> forall x, canon x ->
-  (forall n, 0 <= n < 2 ^ 32 -> nth gf1 x n = nth gf2 x n) /\
+  (forall n, 0 <= n < 2 ^ 32 -> nth_ gf1 x n = nth_ gf2 x n) /\
   sqrt_ gf1 x = sqrt_ gf2 x /\ cbrt_ gf1 x = cbrt_ gf2 x.
 Proof.
   intros gf1 gf2 H1 H2 x Cx.
@@ -78,28 +82,25 @@ Proof.
   - rewrite B1, B2. reflexivity.
   - rewrite C1, C2. reflexivity.
 Qed.
+Print Assumptions C11_guess_independent.
 
 (* BigInt: negated root of |x| for odd n (truncation toward zero); even roots of negatives and
    n = 0 panic *)
 Theorem C11_bigint : forall gf, guess_ok gf -> forall x, icanon x ->
   (forall n, 0 <= n < 2 ^ 32 ->
-     inth_root bmul bdivrem addsub pgr_pow pgr_roots gf x n = omap ienc (spec_inth_root (ival x) n)) /\
-  isqrt bdivrem addsub pgr_roots gf x = omap ienc (spec_isqrt (ival x)) /\
-  icbrt bmul bdivrem addsub pgr_roots gf x = omap ienc (spec_icbrt (ival x)).
+     inth_root pgr_bmul pgr_bdivrem addsub pgr_pow pgr_roots gf x n = omap ienc (spec_inth_root (ival x) n)) /\
+  isqrt pgr_bdivrem addsub pgr_roots gf x = omap ienc (spec_isqrt (ival x)) /\
+  icbrt pgr_bmul pgr_bdivrem addsub pgr_roots gf x = omap ienc (spec_icbrt (ival x)).
 Proof.
   intros gf Hg x Cx. split; [|split].
-  - intros n Hn. apply inth_root_spec; auto using addsub_params_ok, pow_params_ok, roots_params_ok.
-  - apply isqrt_spec; auto using addsub_params_ok, roots_params_ok.
-  - apply icbrt_spec; auto using addsub_params_ok, roots_params_ok.
+  - intros n Hn. apply inth_root_spec; auto using Hm, Hd, addsub_params_ok, pow_params_ok, roots_params_ok.
+  - apply isqrt_spec; auto using Hd, addsub_params_ok, roots_params_ok.
+  - apply icbrt_spec; auto using Hm, Hd, addsub_params_ok, roots_params_ok.
 Qed.
-End Stmt.
-Print Assumptions C11_roots.
-Print Assumptions C11_guess_independent.
 Print Assumptions C11_bigint.
 
 
-(* CLOSED instance: sqrt calls only the division; at the real division model Div.udivrem (C03)
-   no hypothesis is left (cbrt / nth_root also multiply: they keep [bmul_exact] until Mul is merged) *)
+(* sqrt calls only the division (kept under its historical name; same as the sqrt clauses above) *)
 Theorem C11_sqrt_closed : forall gf, guess_ok gf ->
   (forall x, canon x -> usqrt pgr_bdivrem addsub pgr_roots gf x = Ret (enc (zroot 2 (val x)))) /\
   (forall x, icanon x -> isqrt pgr_bdivrem addsub pgr_roots gf x = omap ienc (spec_isqrt (ival x))).
@@ -119,16 +120,16 @@ Proof.
 Qed.
 Print Assumptions C11_guess_nostd_ok.
 
-(* Non-vacuity: the hypotheses are satisfiable, and the Newton iteration really runs:
+(* Non-vacuity: the hypotheses are satisfiable, and the Newton iteration really runs (on the real
+   multiplication and division models):
    floor(sqrt(2^128 + 5)) = 2^64, floor(cbrt(-(2^65))) = -(2^21) * 2^(2/3)... = -3329021, 5th root. *)
 Example C11_nonvacuous :
-  bmul_exact spec_bmul /\ bdivrem_exact spec_bdivrem /\ canonb [5; 0; 1] = true /\
-  usqrt spec_bdivrem addsub pgr_roots guess_nostd [5; 0; 1] = Ret [0; 1] /\
-  usqrt spec_bdivrem addsub pgr_roots (fun _ _ _ => [1]) [5; 0; 1] = Ret [0; 1] /\
-  unth_root spec_bmul spec_bdivrem addsub pgr_pow pgr_roots guess_nostd [0; 0; 1] 5 = Ret [50859008] /\
-  icbrt spec_bmul spec_bdivrem addsub pgr_roots guess_nostd (mkint Minus [0; 2]) = Ret (mkint Minus [3329021]) /\
-  inth_root spec_bmul spec_bdivrem addsub pgr_pow pgr_roots guess_nostd (mkint Minus [0; 2]) 2 = Panic ImagRoot.
+  canonb [5; 0; 1] = true /\
+  usqrt pgr_bdivrem addsub pgr_roots guess_nostd [5; 0; 1] = Ret [0; 1] /\
+  usqrt pgr_bdivrem addsub pgr_roots (fun _ _ _ => [1]) [5; 0; 1] = Ret [0; 1] /\
+  unth_root pgr_bmul pgr_bdivrem addsub pgr_pow pgr_roots guess_nostd [0; 0; 1] 5 = Ret [50859008] /\
+  icbrt pgr_bmul pgr_bdivrem addsub pgr_roots guess_nostd (mkint Minus [0; 2]) = Ret (mkint Minus [3329021]) /\
+  inth_root pgr_bmul pgr_bdivrem addsub pgr_pow pgr_roots guess_nostd (mkint Minus [0; 2]) 2 = Panic ImagRoot.
 Proof.
-  split; [exact spec_bmul_exact|]. split; [exact spec_bdivrem_exact|].
   repeat split; vm_compute; reflexivity.
 Qed.
